@@ -8,6 +8,11 @@ ALL = [f'C{i:02d}' for i in range(1, 21)]
 
 # id -> (level text, level note, technique, design ref)
 CHECKS = {
+    'C13': (
+        'Bounded-exhaustive exploration: every term up to the node bound (quick 5, thorough 6) of a grammar with references in every slot kind, as expression and predicate; negate, both this/var replacements (aliases unused and used), their inverse law and event alias rewriting are compared with the abstract substitution on lifted trees and by evaluation on every valuation with the alias bound to the message; join on all ordered pairs of small predicates incl. the vacuous ones.',
+        'Reference evaluator and abstract substitution are the trusted oracle; aliases captured by quantifiers are outside the alphabet as the property states.',
+        'bounded exhaustive term/pair x valuation enumeration against reference evaluator and abstract substitution',
+    ),
     'C15': (
         'Bounded-exhaustive exploration: every term up to the node bound (quick 5, thorough 6) of a grammar that places marker references in every child slot of every expression node kind, each taken as expression (parser and API), predicate, API-built event with/without the marker alias, nested event disjunction, pattern and property, plus a multi-event property family and a specification; every query method of every such object is compared with an independent generic walk over attrs fields, and iterate() is checked to be a parents-first left-to-right traversal.',
         'Trusts attrs.fields() declaration order and the generic walk; API-only shapes such as a bare this-message argument are outside the alphabet.',
